@@ -66,16 +66,22 @@ vh::Outcome run_def(const vh::Case& c, Prop prop) {
                 int me = vrt::self();
                 for (auto& op : c.fibers[i]) {
                     int kind = op.code % 8;
+                    bool detach_throws = false;
+                    if (kind == 0 && (op.b & 4) && !faults) detach_throws = true;     // a modify_detach whose function throws after modifying
                     if (kind <= 3) {
                         st.subs.emplace_back();
                         Sub& s = st.subs.back();
                         s.fiber = me; s.kind = kind; s.bit = uint64_t(1) << (nbit++ % 60);
-                        s.functor_throws = (kind == 3);
+                        s.functor_throws = (kind == 3) || detach_throws;
                         s.call = vrt::now_step();
                         try {
                             if (kind == 0) d.modify_detach([&body, &s](Tracked& t) { body(s, t); });
                             else if (kind == 1 || kind == 3) { s.fi = d.modify_async([&body, &s](Tracked& t) -> int { body(s, t); return 1000 + s.exec_idx; }); s.has_fi = true; }
                             else { s.fv = d.modify_async([&body, &s](Tracked& t) { body(s, t); }); s.has_fv = true; }
+                        } catch (const UserError&) {
+                            // a throwing function propagates from modify_detach only on the direct path (it ran inside this very call)
+                            if (kind != 0) vrt::fail("async-propagated", "modify_async let the function's exception escape instead of capturing it in the future");
+                            if (s.exec_fiber != me) vrt::fail("foreign-exception", "modify_detach threw an exception that belongs to another thread's queued function");
                         } catch (const vrt::InjectedFault&) {
                             if (!faults) vrt::fail("escaped-fault", "fault without a plan");
                             if (kind != 0) vrt::fail("async-propagated", "modify_async let the function's exception escape instead of capturing it in the future");
@@ -87,12 +93,18 @@ vh::Outcome run_def(const vh::Case& c, Prop prop) {
                     } else if (kind <= 6) {
                         bool is_try = kind >= 5;
                         long b0 = vrt::me().blocking_ops;
+                        long long w0 = vrt::me().waited_ns;
+                        bool timed_for = false;
                         auto h = [&] {
+                          try {
                             if (kind == 4) return d.lock_shared();
-                            if constexpr (MC<M>::timed) { if (kind == 6) return (op.a & 1) ? d.try_lock_shared_for(std::chrono::milliseconds(2)) : d.try_lock_shared_until(std::chrono::steady_clock::time_point::max()); }
+                            if constexpr (MC<M>::timed) { if (kind == 6) { if (op.a & 1) { timed_for = true; return d.try_lock_shared_for(std::chrono::milliseconds(2)); } return d.try_lock_shared_until(std::chrono::steady_clock::time_point::max()); } }
                             return d.try_lock_shared();
+                          } catch (const UserError&) { vrt::fail("foreign-exception", "a shared acquisition threw an exception that belongs to a queued function of another call"); }
                         }();
                         (void)is_try; (void)b0;
+                        if (timed_for && vrt::me().waited_ns - w0 > 2000000LL)
+                            vrt::fail("blocked-beyond-timeout", "try_lock_shared_for(2ms) spent " + std::to_string((vrt::me().waited_ns - w0) / 1000) + " us of virtual time in timed waits that gave up");
                         if (bool(h) != owns_shared())
                             vrt::fail("handle-truth", std::string("deferred_guarded shared handle is ") + (h ? "non-null" : "null") + " but the caller " + (owns_shared() ? "holds" : "does not hold") + " the lock");
                         if (!h) st.lbl_try_null = true;
@@ -177,7 +189,7 @@ vh::Outcome dispatch(const vh::Case& c, Prop p) {
 }
 
 vh::GenSpec spec(bool th, bool faults) {
-    vh::GenSpec g; g.nfibers = 4; g.max_ops = th ? 6 : 4; g.ncodes = 8; g.amax = 2; g.bmax = 4; g.cfg_max = {4};
+    vh::GenSpec g; g.nfibers = 4; g.max_ops = th ? 6 : 4; g.ncodes = 8; g.amax = 4; g.bmax = 8; g.cfg_max = {4};
     g.sched_len = th ? 224 : 160; g.aux_len = 24;
     if (faults) { g.fault_max = 10; g.fault_mask = vrt::F_FUNCTOR; }
     return g;
